@@ -160,10 +160,46 @@ func (p *Program) isActionFunc(fn *ssa.Function) bool {
 	for fn.Parent() != nil {
 		fn = fn.Parent()
 	}
-	if fn.Signature.Recv() == nil {
+	if fn.Signature.Recv() == nil || !namedIs(fn.Signature.Recv().Type(), grammarPath, "current") {
+		return p.actionHelper(fn, 0)
+	}
+	return true
+}
+
+// actionHelper: an unexported package-level function of package grammar that can only ever run as a static call from a
+// semantic action (or from another such helper): a node constructor. What it builds is built while parsing.
+func (p *Program) actionHelper(fn *ssa.Function, depth int) bool {
+	if depth > 4 || fn.Pkg == nil || fn.Pkg != p.GrammarSSA || len(fn.Blocks) == 0 {
 		return false
 	}
-	return namedIs(fn.Signature.Recv().Type(), grammarPath, "current")
+	if rv := fn.Signature.Recv(); rv != nil && (namedIs(rv.Type(), grammarPath, "parser") || namedIs(rv.Type(), grammarPath, "current")) {
+		return false
+	}
+	if o := fn.Object(); o == nil || o.Exported() {
+		return false
+	}
+	n := p.CG.Nodes[fn]
+	if n == nil || len(n.In) == 0 {
+		return false
+	}
+	for _, e := range n.In {
+		c := e.Caller.Func
+		if isSynthetic(c) || c.Synthetic != "" {
+			// the pointer-receiver form of a value method, a bound-method closure: fine if nothing uses it
+			if cn := p.CG.Nodes[c]; cn == nil || len(cn.In) == 0 {
+				continue
+			}
+			return false
+		}
+		if e.Site == nil || e.Site.Common().StaticCallee() != fn || c == fn {
+			return false
+		}
+		isAction := c.Signature.Recv() != nil && namedIs(c.Signature.Recv().Type(), grammarPath, "current")
+		if !isAction && !p.actionHelper(c, depth+1) {
+			return false
+		}
+	}
+	return true
 }
 
 // rootOf follows address/value derivations back to where a value comes from.
